@@ -191,6 +191,7 @@ type bhBlock struct {
 	Absent   []int        `json:"absent,omitempty"`
 	Evidence []bhEvidence `json:"evidence,omitempty"`
 	Txs      []bhTx       `json:"txs"`
+	Pre      []bhPerturb  `json:"pre,omitempty"` // C01: what happens to single replicas before this block that is not a block input (replica_perturb.go)
 }
 
 type bhGenesis struct {
@@ -203,12 +204,14 @@ type bhGenesis struct {
 	Extra      bool        `json:"extra,omitempty"`  // every user also holds the denominations of bhExtraDenoms
 	MinDep     [][2]string `json:"mindep,omitempty"` // further coins [denomination, amount] of the gov min deposit beside 10 ISLM
 	NoBurn     int         `json:"noburn,omitempty"` // gov burn switches turned off: 1 quorum, 2 deposit-prevote, 4 veto
+	Hist       *uint32     `json:"hist,omitempty"`   // staking HistoricalEntries (nil = the SDK default, 10000)
 }
 
 type bhInput struct {
 	Gen    bhGenesis `json:"gen"`
 	Blocks []bhBlock `json:"blocks"`
 	Focus  string    `json:"focus,omitempty"` // generator bias recorded for the evidence
+	Proc   *procPlan `json:"proc,omitempty"`  // C01: how the replicas' application objects are constructed (replica_perturb.go)
 }
 
 // ---------------------------------------------------------------- genesis
@@ -270,6 +273,9 @@ func bhGenesisState(a *app.Haqq, g bhGenesis) []byte {
 	sp.BondDenom = utils.BaseDenom
 	sp.MaxValidators = uint32(g.MaxVals)
 	sp.UnbondingTime = time.Duration(g.UnbondSecs) * time.Second
+	if g.Hist != nil {
+		sp.HistoricalEntries = *g.Hist
+	}
 	var vals []stakingtypes.Validator
 	var dels []stakingtypes.Delegation
 	var infos []slashingtypes.SigningInfo
@@ -365,6 +371,8 @@ type Replica struct {
 	sABI   abi.ABI
 	dABI   abi.ABI
 	inBlk  bool
+	DB     dbm.DB         // the node's database (a restart opens a new application on it)
+	Probe  common.Address // environment-probe contract once this replica built its deployment (envprobe.go)
 }
 
 var genesisTime = time.Unix(1_700_000_000, 0).UTC()
@@ -403,12 +411,13 @@ func newReplica(g bhGenesis, o repOpts) *Replica {
 	if o.Trace {
 		bopts = append(bopts, baseapp.SetTrace(true))
 	}
-	a := app.NewHaqq(log.NewNopLogger(), dbm.NewMemDB(), nil, true, map[int64]bool{}, home, o.InvCheckPeriod, enc, ao, bopts...)
+	db := dbm.NewMemDB()
+	a := app.NewHaqq(log.NewNopLogger(), db, nil, true, map[int64]bool{}, home, o.InvCheckPeriod, enc, ao, bopts...)
 	res := a.InitChain(abci.RequestInitChain{
 		ChainId: chainID, Time: genesisTime, ConsensusParams: app.DefaultConsensusParams,
 		Validators: []abci.ValidatorUpdate{}, AppStateBytes: bhGenesisState(a, g), InitialHeight: 1,
 	})
-	r := &Replica{App: a, Opts: o, TxCfg: enc.TxConfig, Height: 0, Time: genesisTime}
+	r := &Replica{App: a, Opts: o, TxCfg: enc.TxConfig, Height: 0, Time: genesisTime, DB: db}
 	r.Hash = res.AppHash
 	r.Hdr = tmproto.Header{ChainID: chainID, Height: 1, Time: genesisTime}
 	pcs := a.EvmKeeper.Precompiles(addrStakingPC, addrDistrPC)
@@ -510,6 +519,7 @@ type txResult struct {
 	Digest    string `json:"digest"` // keccak of the deterministic protobuf encoding of the whole ResponseDeliverTx
 	Direct    string `json:"direct,omitempty"`
 	VmErr     string `json:"vm_err,omitempty"`
+	Ret       string `json:"ret,omitempty"` // return data of an environment-probe call (hex)
 }
 
 type blockResult struct {
@@ -549,7 +559,7 @@ func (r *Replica) beginBlock(rb *rawBlock) (res abci.ResponseBeginBlock, pan str
 	r.Height = rb.Hdr.Height
 	r.Time = rb.Hdr.Time
 	r.inBlk = true
-	res = r.App.BeginBlock(abci.RequestBeginBlock{Header: rb.Hdr, LastCommitInfo: abci.CommitInfo{Votes: rb.Votes}, ByzantineValidators: rb.Evid})
+	res = r.App.BeginBlock(abci.RequestBeginBlock{Hash: headerHash(rb.Hdr), Header: rb.Hdr, LastCommitInfo: abci.CommitInfo{Votes: rb.Votes}, ByzantineValidators: rb.Evid})
 	return
 }
 
@@ -930,6 +940,10 @@ func (r *Replica) buildTx(ctx sdk.Context, t bhTx) ([]byte, error) {
 			return nil, err
 		}
 		return r.signEth(ctx, f, to, bigA(t.A), data, 3_000_000, t.N%2 == 1)
+	case "probedeploy":
+		return r.signProbeDeploy(ctx, f, t.N%2 == 1)
+	case "probe":
+		return r.signProbeCall(ctx, f, t.S, t.N%2 == 1)
 	case "upgrade", "fundrewards":
 		return nil, nil // direct operations
 	default:
@@ -1070,6 +1084,8 @@ type stepHooks struct {
 	// (generation looks at the state); the block description is filled in place.
 	GenTx func(h *histRun, b *bhBlock, i int) *bhTx
 	NTx   func(b *bhBlock) int
+	// TweakRaw, when set, completes the header built by makeRaw (leading replica only)
+	TweakRaw func(h *histRun, rb *rawBlock)
 }
 
 // runBlock executes one block.  With raw != nil the recorded header / votes /
@@ -1089,6 +1105,9 @@ func (h *histRun) runBlock(b *bhBlock, raw *rawBlock, hooks *stepHooks) (blockRe
 			h.clamp--
 		}
 		rb = h.makeRaw(*b)
+		if hooks != nil && hooks.TweakRaw != nil {
+			hooks.TweakRaw(h, &rb)
+		}
 	}
 	br := blockResult{Height: rb.Hdr.Height}
 	fail := func(p string) (blockResult, rawBlock) {
@@ -1161,6 +1180,9 @@ func (h *histRun) runBlock(b *bhBlock, raw *rawBlock, hooks *stepHooks) (blockRe
 				if er, err := evmtypes.DecodeTxResponse(res.Data); err == nil && er.VmError != "" {
 					tr.VmErr = shortLog(er.VmError)
 				}
+			}
+			if res.Code == 0 && t.K == "probe" {
+				tr.Ret = probeRet(res.Data)
 			}
 			// log and info are documented as non-deterministic and are not part of the results hash
 			res.Log, res.Info = "", ""
